@@ -595,6 +595,7 @@ func main() {
 	for i := 0; i < o.N/2; i++ {
 		recipes = append(recipes, genTableRecipe(trng))
 	}
+	recipes = append(recipes, cfgRegistrySweep()...)
 	crng := NewRng(o.Seed ^ 0xc0f19)
 	for i := 0; i < o.N/8; i++ {
 		recipes = append(recipes, genCfgRecipe(crng))
